@@ -587,9 +587,13 @@ C13_Step(pre, ev, post, agent) ==
               /\ IsIdPrefixOf(pre.mb[x].msgs, post.mb[x].msgs)
            THEN LET a == pre.mb[x] b == post.mb[x]
                     added == DropN(b.msgs, Len(a.msgs))
+                    (* messages the command itself put there (named by its APPENDUID / COPYUID) are not the
+                       agent's, even when file number and content coincide with an old delivery *)
+                    byCmd == IF ev.act \in {"Copy", "Move", "Append"} /\ x = ev.mbox /\ ev.status = "OK"
+                             THEN SeqToSet(ev.code.dst) ELSE {}
                 IN UNION {
                      LET y == added[k] IN
-                     IF \E g \in agent : g[1] = x /\ g[2] = y.key /\ g[3] = y.id THEN
+                     IF y.uid \notin byCmd /\ \E g \in agent : g[1] = x /\ g[2] = y.key /\ g[3] = y.id THEN
                         (IF Visible(y.fl) #
                             (IF (CHOOSE g \in agent : g[1] = x /\ g[2] = y.key /\ g[3] = y.id)[4]
                              THEN {} ELSE {"Seen"})
